@@ -11,7 +11,7 @@ Reference model: per manager, the accepted constraints as predicates over 0/1
 assignments, evaluated from the *generator's* description (never from FRAME's
 normal form).  Oracles after every post and at solve: exactness of the model set
 projected on the user variables, refusal-not-drop, solve/value/evalexpr, and
-independence of the clause set (modulo auxiliary numbering) from the history,
+independence of the encoding's meaning (its model set on the user variables) from the history,
 against the same script run alone in a fresh child.
 """
 import itertools
@@ -609,7 +609,9 @@ def _simulate(case, only_client=None, collect=None):
                                     "clauses_added": len(cl.m.clauses) - before}})
         if not ref:
             probe("manager_became_unsat")
-        per_post_canon.setdefault(c, []).append(digest(cl.canon_clauses()))
+        # what an encoding *means* is its model set on the user's variables; the clause list itself (order, numbering and
+        # naming of auxiliary variables) is not an answer and may legitimately depend on the diagram store
+        per_post_canon.setdefault(c, []).append(digest(sorted(got)))
         hist.append({"seq": seq, "c": c, "op": kind, "cmp": o.get("cmp"), "out": outcome,
                      "models": len(got), "clauses": len(cl.m.clauses)})
         sig.append((c, kind, o.get("cmp", ""), outcome.split(":")[0], ""))
@@ -648,7 +650,7 @@ def run_case(case):
         n = min(len(got), len(want)) if c in r["dead"] else max(len(got), len(want))
         if got[:n] != want[:n]:
             k = next((i for i in range(n) if i >= len(got) or i >= len(want) or got[i] != want[i]), None)
-            viol.append({"property": "C07", "clause": "clause set depends on earlier encodings in the process",
+            viol.append({"property": "C07", "clause": "meaning of the encoding depends on earlier encodings in the process",
                          "key": {"op": "history"},
                          "detail": {"client": c, "first_differing_post": k}})
         r["probes"]["alone_compared"] = r["probes"].get("alone_compared", 0) + 1
